@@ -1,6 +1,10 @@
 use crate::{b, f};
 use tiny_skia_path::{Path, PathBuilder, PathVerb, Point, Rect};
 
+pub fn run_ops_pub(pb: &mut PathBuilder, l: &[i128]) {
+    run_ops(pb, l)
+}
+
 fn run_ops(pb: &mut PathBuilder, mut l: &[i128]) {
     loop {
         match l {
